@@ -229,17 +229,17 @@ def _judge_text(ctx, c, paths):
         kind, t = call(lambda: str(s))
         ctx.op('str', 'ok' if kind == 'ok' else type(t).__name__)
         if kind != 'ok' or not isinstance(t, str):
-            ctx.mismatch(f'C19|str|{ic}|raised', short(c), f'str() -> {kind}:{t!r}'[:300])
+            ctx.mismatch(f'C19|str|{ic}|raised', c, f'str() -> {kind}:{t!r}'[:300])
         elif side == 'short':
             k2, back = call(lambda: Bits(t))
             ctx.op('Bits(str)', 'ok' if k2 == 'ok' else type(back).__name__)
             if k2 != 'ok':
-                ctx.mismatch(f'C19|str|{ic}|not-parsable', short(c), f'Bits({t[:80]!r}) raised {type(back).__name__}')
+                ctx.mismatch(f'C19|str|{ic}|not-parsable', c, f'Bits({t[:80]!r}) raised {type(back).__name__}')
             elif B(back) != b:
-                ctx.mismatch(f'C19|str|{ic}|roundtrip-not-equal', short(c),
+                ctx.mismatch(f'C19|str|{ic}|roundtrip-not-equal', c,
                              f'L={L} str={t[:80]!r}: Bits(str(s)) has other content than s')
             elif not (back == s):
-                ctx.mismatch(f'C19|str|{ic}|eq-false-though-same-content', short(c),
+                ctx.mismatch(f'C19|str|{ic}|eq-false-though-same-content', c,
                              f'L={L} str={t[:80]!r}: Bits(str(s)) == s is False although both have the same bits')
             else:
                 ctx.ok(key('str'), nontrivial)
@@ -249,16 +249,16 @@ def _judge_text(ctx, c, paths):
             except ValueError:
                 mine = None
             if mine is None:
-                ctx.mismatch(f'C19|str|{ic}|not-a-bit-literal', short(c), f'str={t[:80]!r}')
+                ctx.mismatch(f'C19|str|{ic}|not-a-bit-literal', c, f'str={t[:80]!r}')
             elif mine != b:
-                ctx.mismatch(f'C19|str|{ic}|literal-differs-from-value', short(c), f'L={L} str={t[:80]!r}')
+                ctx.mismatch(f'C19|str|{ic}|literal-differs-from-value', c, f'L={L} str={t[:80]!r}')
             else:
                 ctx.ok(key('str-literal'), nontrivial)
             if '...' in t:
-                ctx.mismatch(f'C19|str|{ic}|truncated-below-limit', short(c), f'L={L} str={t[:40]!r}')
+                ctx.mismatch(f'C19|str|{ic}|truncated-below-limit', c, f'L={L} str={t[:40]!r}')
         else:
             if not t.endswith('...'):
-                ctx.mismatch(f'C19|str|{ic}|long-value-not-marked', short(c), f'L={L} str ends {t[-20:]!r}')
+                ctx.mismatch(f'C19|str|{ic}|long-value-not-marked', c, f'L={L} str ends {t[-20:]!r}')
             else:
                 ctx.ok(key('str'), True)
                 if not lsb0:
@@ -267,7 +267,7 @@ def _judge_text(ctx, c, paths):
                     except ValueError:
                         head = None
                     if head is None or not head or not b.startswith(head):
-                        ctx.mismatch(f'C19|str|{ic}|truncated-head-not-a-prefix', short(c), f'L={L} str={t[:40]!r}')
+                        ctx.mismatch(f'C19|str|{ic}|truncated-head-not-a-prefix', c, f'L={L} str={t[:40]!r}')
                     else:
                         ctx.ok(key('str-head'), True)
 
@@ -275,22 +275,22 @@ def _judge_text(ctx, c, paths):
         kind, r = call(lambda: repr(s))
         ctx.op('repr', 'ok' if kind == 'ok' else type(r).__name__)
         if kind != 'ok' or not isinstance(r, str):
-            ctx.mismatch(f'C19|repr|{ic}|raised', short(c), f'repr() -> {kind}:{r!r}'[:300])
+            ctx.mismatch(f'C19|repr|{ic}|raised', c, f'repr() -> {kind}:{r!r}'[:300])
             return
         marked = '...' in r
         if side == 'short' and marked:
-            ctx.mismatch(f'C19|repr|{ic}|truncated-below-limit', short(c), f'L={L} repr={r[:60]!r}')
+            ctx.mismatch(f'C19|repr|{ic}|truncated-below-limit', c, f'L={L} repr={r[:60]!r}')
             return
         if marked:
             lens = re.findall(r'length=(\d+)', r)
             if not lens or int(lens[-1]) != L:
-                ctx.mismatch(f'C19|repr|{ic}|true-length-missing', short(c), f'L={L} repr ends {r[-40:]!r}')
+                ctx.mismatch(f'C19|repr|{ic}|true-length-missing', c, f'L={L} repr ends {r[-40:]!r}')
             elif not r.startswith(cls.__name__ + '('):
-                ctx.mismatch(f'C19|repr|{ic}|wrong-class-name', short(c), f'repr={r[:40]!r}')
+                ctx.mismatch(f'C19|repr|{ic}|wrong-class-name', c, f'repr={r[:40]!r}')
             else:
                 ctx.ok(key('repr-truncated'), True)
             if pos and f'pos={pos}' not in r:
-                ctx.mismatch(f'C19|repr|{ic}|pos-missing', short(c), f'pos={pos} repr={r[:40]!r}...{r[-40:]!r}')
+                ctx.mismatch(f'C19|repr|{ic}|pos-missing', c, f'pos={pos} repr={r[:40]!r}...{r[-40:]!r}')
             return
         # not marked: must evaluate back (mandatory up to 1000 bits; a longer value that is not
         # marked is only acceptable when it does evaluate back)
@@ -298,21 +298,21 @@ def _judge_text(ctx, c, paths):
         ctx.op('eval(repr)', 'ok' if k3 == 'ok' else type(e).__name__)
         rs = r if len(r) < 160 else r[:80] + '...' + r[-60:]
         if k3 != 'ok':
-            ctx.mismatch(f'C19|repr|{ic}|eval-raises', short(c), f'L={L} eval({rs!r}) raised {type(e).__name__}: {e}'[:400])
+            ctx.mismatch(f'C19|repr|{ic}|eval-raises', c, f'L={L} eval({rs!r}) raised {type(e).__name__}: {e}'[:400])
             return
         if type(e) is not cls:
-            ctx.mismatch(f'C19|repr|{ic}|eval-wrong-class', short(c), f'{type(e).__name__} from {rs!r}')
+            ctx.mismatch(f'C19|repr|{ic}|eval-wrong-class', c, f'{type(e).__name__} from {rs!r}')
             return
         k4, same = call(lambda: (B(e) == b, e == s))
         if k4 != 'ok' or same[0] is not True:
-            ctx.mismatch(f'C19|repr|{ic}|eval-not-equal', short(c), f'L={L} content differs after eval({rs!r})')
+            ctx.mismatch(f'C19|repr|{ic}|eval-not-equal', c, f'L={L} content differs after eval({rs!r})')
             return
         if same[1] is not True:
-            ctx.mismatch(f'C19|repr|{ic}|eq-false-though-same-content', short(c), f'L={L} eval({rs!r}) == s is False')
+            ctx.mismatch(f'C19|repr|{ic}|eq-false-though-same-content', c, f'L={L} eval({rs!r}) == s is False')
             return
         if pos is not None:
             if getattr(e, 'pos', None) != pos:
-                ctx.mismatch(f'C19|repr|{ic}|eval-wrong-pos', short(c), f'pos {pos} -> {getattr(e, "pos", None)} via {rs!r}')
+                ctx.mismatch(f'C19|repr|{ic}|eval-wrong-pos', c, f'pos {pos} -> {getattr(e, "pos", None)} via {rs!r}')
                 return
         ctx.ok(key('repr'), nontrivial)
     ctx.state('text', src['cls'], L, pos, lsb0)
@@ -383,19 +383,19 @@ def _judge_pp(ctx, c, paths):
         ctx.op('pp', 'ok' if kind == 'ok' else type(val).__name__)
         if kind != 'ok':
             if text:
-                ctx.mismatch(f'C19|pp|{ic}|wrote-before-raising', short(c), f'{type(val).__name__} after writing {text[:80]!r}')
+                ctx.mismatch(f'C19|pp|{ic}|wrote-before-raising', c, f'{type(val).__name__} after writing {text[:80]!r}')
             if can:
-                ctx.mismatch(f'C19|pp|{ic}|raised-though-expressible', short(c),
+                ctx.mismatch(f'C19|pp|{ic}|raised-though-expressible', c,
                              f'L={L} fmt={fmt!r}: {type(val).__name__}: {val}'[:300])
             elif not isinstance(val, ValueError):
-                ctx.mismatch(f'C19|pp|{ic}|raised-other-than-ValueError', short(c), f'{type(val).__name__}: {val}'[:300])
+                ctx.mismatch(f'C19|pp|{ic}|raised-other-than-ValueError', c, f'{type(val).__name__}: {val}'[:300])
             else:
                 ctx.ok(('pp', L % 12, f1, f2, g, 'raised'), False)
             return
         if fmt is None:
             hf = PP.header_formats(PP.strip_escapes(text.split('\n')[0]))
             if not hf:
-                ctx.mismatch(f'C19|pp|{ic}|header-format-unreadable', short(c), text[:120])
+                ctx.mismatch(f'C19|pp|{ic}|header-format-unreadable', c, text[:120])
                 return
             f1, f2 = hf[0][0], (hf[1][0] if len(hf) > 1 else None)
             gs = [x[1] for x in hf if x[1] is not None]
@@ -404,14 +404,14 @@ def _judge_pp(ctx, c, paths):
         faults, info = PP.verify(text, b, f1=f1, f2=f2, g=g, default_g=dg, sep=c['sep'], show_offset=c['offset'],
                                  lsb0=lsb0, width=c['width'], no_color=no_color, header_len=L)
     if B(s) != b:
-        ctx.mismatch(f'C19|pp|{ic}|value-changed-by-pp', short(c), '')
+        ctx.mismatch(f'C19|pp|{ic}|value-changed-by-pp', c, '')
     if faults:
         seen = set()
         for shape, detail in faults:
             if shape in seen:
                 continue
             seen.add(shape)
-            ctx.mismatch(f'C19|pp|{ic}|{shape}', short(c), f'L={L} fmt={fmt!r} width={c["width"]} sep={c["sep"]!r}: {detail}')
+            ctx.mismatch(f'C19|pp|{ic}|{shape}', c, f'L={L} fmt={fmt!r} width={c["width"]} sep={c["sep"]!r}: {detail}')
         return
     ctx.ok(('pp', L % 12, f1, f2, g, wbucket(c['width']), 'lsb0' if lsb0 else 'msb0',
             'nosep' if c['sep'] == '' else 'sep'), L > 0, n=1 + info['lines'])
@@ -444,19 +444,19 @@ def judge_array(ctx, c):
         kind, r = call(lambda: repr(a))
         ctx.op('Array.repr', 'ok' if kind == 'ok' else type(r).__name__)
         if kind != 'ok' or not isinstance(r, str):
-            ctx.mismatch(f'C19|Array.repr|{fam}|raised', short(c), f'{type(r).__name__}: {r}'[:300])
+            ctx.mismatch(f'C19|Array.repr|{fam}|raised', c, f'{type(r).__name__}: {r}'[:300])
         else:
             k2, e = call(lambda: eval(r, dict(NS)))
             ctx.op('eval(Array.repr)', 'ok' if k2 == 'ok' else type(e).__name__)
             rs = r if len(r) < 200 else r[:120] + '...' + r[-60:]
             if k2 != 'ok':
-                ctx.mismatch(f'C19|Array.repr|{fam}|eval-raises', short(c), f'eval({rs!r}) raised {type(e).__name__}: {e}'[:400])
+                ctx.mismatch(f'C19|Array.repr|{fam}|eval-raises', c, f'eval({rs!r}) raised {type(e).__name__}: {e}'[:400])
             elif type(e) is not Array:
-                ctx.mismatch(f'C19|Array.repr|{fam}|eval-wrong-class', short(c), f'{type(e).__name__} from {rs!r}')
+                ctx.mismatch(f'C19|Array.repr|{fam}|eval-wrong-class', c, f'{type(e).__name__} from {rs!r}')
             else:
                 k3, same = call(lambda: (e.equals(a), a.equals(e), B(e.data) == data, str(e.dtype) == str(a.dtype)))
                 if k3 != 'ok' or same != (True, True, True, True):
-                    ctx.mismatch(f'C19|Array.repr|{fam}|eval-not-equal', short(c),
+                    ctx.mismatch(f'C19|Array.repr|{fam}|eval-not-equal', c,
                                  f'(equals, equals-rev, same data, same dtype)={same} via {rs!r}')
                 else:
                     ctx.ok(('Array.repr', fam, size, len(items) if len(items) < 3 else 'n', bool(trailing)), len(data) > 0)
@@ -473,9 +473,9 @@ def judge_array(ctx, c):
     ctx.op('Array.pp', 'ok' if kind == 'ok' else type(val).__name__)
     if kind != 'ok':
         if can:
-            ctx.mismatch(f'C19|Array.pp|{ic}|raised-though-expressible', short(c), f'{type(val).__name__}: {val}'[:300])
+            ctx.mismatch(f'C19|Array.pp|{ic}|raised-though-expressible', c, f'{type(val).__name__}: {val}'[:300])
         elif not isinstance(val, ValueError):
-            ctx.mismatch(f'C19|Array.pp|{ic}|raised-other-than-ValueError', short(c), f'{type(val).__name__}: {val}'[:300])
+            ctx.mismatch(f'C19|Array.pp|{ic}|raised-other-than-ValueError', c, f'{type(val).__name__}: {val}'[:300])
         return
     if not can:
         return              # printed although not expressible (empty data): nothing to read
@@ -487,7 +487,7 @@ def judge_array(ctx, c):
         for shape, detail in faults:
             if shape not in seen:
                 seen.add(shape)
-                ctx.mismatch(f'C19|Array.pp|{ic}|{shape}', short(c), f'dtype={dt} fmt={p["fmt"]!r} width={p["width"]}: {detail}')
+                ctx.mismatch(f'C19|Array.pp|{ic}|{shape}', c, f'dtype={dt} fmt={p["fmt"]!r} width={p["width"]}: {detail}')
         return
     ctx.ok(('Array.pp', fam, f1, f2, g, wbucket(p['width'])), len(data) >= unit, n=1 + info['lines'])
 
@@ -695,7 +695,7 @@ def run(ctx):
                         i += 1
         ctx.exhaustive['pp_L0-48_x_format_pairs_x_group_sizes'] = True
         # 4. random
-        n = ctx.scale(80000, 2400000)
+        n = ctx.scale(80000, 1600000)
         for k in range(n):
             r = rng.random()
             if r < 0.62:
